@@ -1,5 +1,5 @@
 SPECIFICATION Spec
-CONSTANT Depth = 4
+CONSTANT Depth = 3
 CONSTANT Assume = {"A", "B", "C", "D", "E"}
 CONSTRAINT Bound
 VIEW View
